@@ -15,7 +15,7 @@
 from z3 import And, BoolSort, BoolVal, ForAll, Function, Implies, Int, IntSort, Ints, MultiPattern, Not, Or
 
 from pyvc.bits import bit, band, bor, bnot
-from pyvc.engine import FuncV, IntV, IterV, LoopSpec, ObjV, TupleV
+from pyvc.engine import BoolV, FuncV, IntV, IterV, ListV, LoopSpec, NONE, ObjV, TupleV
 from contracts import lib
 from contracts.ctxtheory import Ctx
 from contracts.registry import Unit, register
@@ -122,3 +122,271 @@ register(Unit('lindig.neighbors', 'concepts/algorithms/lindig.py', 'neighbors', 
                            'lemma L-LINDIG proved in Lean (lemmas/Lindig.lean: lindig_step, exists_cov_le, cov_gen); SMT<->Lean transcription by hand',
                            'contract of Objects.doubleprime proved in unit matrices.doubleprime'],
               linkage=[('concepts.algorithms.lindig.neighbors', None), ('concepts.algorithms.neighbors', None)]))
+
+
+# =============================================================================================
+# lindig.lattice -- the worklist (C03, C05, C06; DESIGN section C03)
+
+def _lattice_unit():
+    """Abstract state (extents are natural numbers; one tuple per extent, shared by mapping and heap):
+         D   extents in `mapping`;  H extents in the heap;  Pr extents already yielded
+         U(e,f)   f is in the upper list of e's tuple;   Lo(f,e)  e is in the lower list of f's tuple
+       requires infimum = ()  (what Context.lattice passes); e0 = Cl(0)
+       outer invariant
+         J1  D(e) -> is_extent(e)            J2  D(e0)              J3  D = Pr + H (disjoint)
+         J4  Pr(e) /\\ cover(e,f) -> D(f)      J5  Pr(e) /\\ H(h) -> rk(e) < rk(h)
+         J6  Pr(e) -> (U(e,f) <-> cover(e,f));   not Pr(e) -> not U(e,f)
+         J7  D(f) -> (Lo(f,e) <-> Pr(e) /\\ cover(e,f));   not D(f) -> not Lo(f,e)
+       yields: the tuple of the popped extent, whose rank is greater than that of everything yielded before
+       exit (H empty): D = Pr contains e0 and is closed under covers => D = Ext by L-WORKLIST (lemmas/Worklist.lean);
+         U(e,.) = upper covers, Lo(f,.) = lower covers for every extent."""
+    from z3 import BoolSort
+    B = BoolSort()
+
+    def make():
+        C = Ctx()
+        cover = Function('cover', I, I, B)
+        rk = Function('rk', I, I)                 # shortlex rank (bitsets contract: the key realises shortlex)
+        nb_len = Function('nb.len', I, I)
+        nb_E = Function('nb.E', I, I, I)
+        nrank = Function('nb.rank', I, I, I)
+        e, f, t = Ints('e f t')
+        isext = lambda x: And(C.is_objset(x), C.Cl(x) == x)
+        axioms = C.axioms() + [
+            # contract of lindig.neighbors (unit lindig.neighbors + lemmas/Lindig.lean: cover_unique_gen): for an extent e the
+            # yielded extents nb.E(e, 0..len-1) are exactly the upper covers of e, each once
+            ('nb.iter', ForAll([e, t], Implies(And(isext(e), 0 <= t, t < nb_len(e)), And(cover(e, nb_E(e, t)), nrank(e, nb_E(e, t)) == t)),
+                               patterns=[nb_E(e, t)])),
+            ('nb.onto', ForAll([e, f], Implies(And(isext(e), cover(e, f)), And(0 <= nrank(e, f), nrank(e, f) < nb_len(e), nb_E(e, nrank(e, f)) == f)),
+                               patterns=[cover(e, f)])),
+            ('nb.len', ForAll([e], nb_len(e) >= 0, patterns=[nb_len(e)])),
+            # covers are extents strictly above; the shortlex rank is strictly monotone on strict inclusion (L-SLEX) and injective
+            ('cover.ext', ForAll([e, f], Implies(cover(e, f), And(isext(f), rk(e) < rk(f))), patterns=[cover(e, f)])),
+            ('rk.inj', ForAll([e, f], Implies(And(isext(e), isext(f), rk(e) == rk(f)), e == f), patterns=[MultiPattern(rk(e), rk(f))])),
+        ]
+
+        def harness(path):
+            cnt = path.eng.counter
+
+            def fs(name, n=1):
+                return Function('%s!%d' % (name, next(cnt)), *([I] * n + [B]))
+            G = path.ghost
+            e0 = C.Cl(IntVal0())
+            st = {'D': None, 'H': None, 'Pr': fs('Pr'), 'U': fs('U', 2), 'Lo': fs('Lo', 2)}
+            path.assume(ForAll([e], Not(st['Pr'](e)), patterns=[st['Pr'](e)]))
+            path.assume(ForAll([e, f], Not(st['U'](e, f)), patterns=[st['U'](e, f)]))
+            from contracts.lemmas_z3 import Side, use_galois
+            use_galois(path, Side(C, 'O'), IntVal0())
+
+            class Handle(ListV):
+                """the upper / lower list inside the tuple of extent `key`"""
+                def __init__(self, kind, key):
+                    ListV.__init__(self, [])
+                    self.kind, self.key = kind, key
+
+            def tuple_of(key):
+                tv = TupleV([IntV(key, 'Objects'), IntV(C.Up(key), 'Properties'), Handle('U', key), Handle('Lo', key)])
+                tv.key = key
+                return tv
+
+            def handle_append(h, x):
+                rel = 'U' if h.kind == 'U' else 'Lo'
+                old = st[rel]
+                new = fs(rel, 2)
+                path.assume(ForAll([e, f], new(e, f) == Or(And(e == h.key, f == x.t), old(e, f)), patterns=[new(e, f), old(e, f)]))
+                st[rel] = new
+
+            # list.append on handles is intercepted through getattr of ListV: patch by subclass method lookup in engine -> use FuncV
+            def dict_factory(p, items):
+                ((k, v),) = items
+                ok = isinstance(k, IntV) and isinstance(v, TupleV) and len(v.items) == 4 and v.items[0] is k \
+                    and isinstance(v.items[2], ListV) and isinstance(v.items[3], ListV) and not v.items[2].items and not v.items[3].items \
+                    and v.items[2] is not v.items[3]
+                p.oblige('init/mapping-entry', 'post', And(BoolVal(ok), k.t == e0, v.items[1].t == C.Up(e0)) if ok else BoolVal(False))
+                D0 = fs('D')
+                p.assume(ForAll([e], D0(e) == (e == e0), patterns=[D0(e)]))
+                st['D'] = D0
+                Lo0 = fs('Lo', 2)
+                p.assume(ForAll([e, f], Not(Lo0(e, f)), patterns=[Lo0(e, f)]))
+                st['Lo'] = Lo0
+                G['first_tuple'] = v
+                return mapping
+            mapping = ObjV('dict', {}, name='mapping')
+
+            def m_contains(p, args, kw):
+                return BoolV(st['D'](args[-1].t))
+
+            def m_get(p, args, kw):
+                k = args[-1]
+                p.oblige('key@mapping', 'key', st['D'](k.t))
+                return tuple_of(k.t)
+
+            def m_set(p, args, kw):
+                _, k, v = args
+                ok = isinstance(v, TupleV) and len(v.items) == 4 and isinstance(v.items[2], ListV) and isinstance(v.items[3], ListV) \
+                    and v.items[2] is not v.items[3] and not v.items[2].items and len(v.items[3].items) == 1
+                p.oblige('mapping-store/tuple-shape', 'post',
+                         And(v.items[0].t == k.t, v.items[1].t == C.Up(k.t)) if ok else BoolVal(False))
+                if not ok:
+                    return NONE
+                D2, Lo2 = fs('D'), fs('Lo', 2)
+                p.assume(ForAll([e], D2(e) == Or(e == k.t, st['D'](e)), patterns=[D2(e), st['D'](e)]))
+                x = v.items[3].items[0]
+                p.assume(ForAll([e, f], Lo2(e, f) == Or(And(e == k.t, f == x.t), st['Lo'](e, f)), patterns=[Lo2(e, f), st['Lo'](e, f)]))
+                st['D'], st['Lo'] = D2, Lo2
+                G['stored'] = (k, v)
+                return NONE
+            for nm, fn in (('__contains__', m_contains), ('__getitem__', m_get), ('__setitem__', m_set)):
+                mapping.fields[nm] = FuncV('dict.' + nm, fn)
+
+            heap_abs = ObjV('heap', {}, name='heap')
+
+            def heap_truth():
+                w = path.fresh_int('hw')
+                ne = path.fresh_bool('heap.nonempty')
+                H = st['H']
+                path.assume(Implies(ne, H(w)))
+                path.assume(Implies(Not(ne), ForAll([e], Not(H(e)), patterns=[H(e)])))
+                return ne
+            heap_abs.truth_fn = heap_truth
+
+            def heappush(p, args, kw):
+                h, it = args
+                ok = isinstance(it, TupleV) and len(it.items) == 2 and isinstance(it.items[0], IntV) and isinstance(it.items[1], TupleV)
+                p.oblige('heappush/pair-shape', 'pre@call', BoolVal(ok))
+                if not ok:
+                    return NONE
+                key, tup = it.items
+                stored = G.get('stored')
+                # the heap entry is (shortlex key of the extent, THE tuple just stored in mapping) -- mapping and heap share it
+                shared = stored is not None and tup is stored[1]
+                p.oblige('heappush/shares-the-mapping-tuple', 'pre@call',
+                         And(BoolVal(shared), key.t == rk(tup.items[0].t), BoolVal(key.tag == 'Key')) if shared else BoolVal(False))
+                H2 = fs('H')
+                p.assume(ForAll([e], H2(e) == Or(e == tup.items[0].t, st['H'](e)), patterns=[H2(e), st['H'](e)]))
+                st['H'] = H2
+                return NONE
+
+            def heappop(p, args, kw):
+                H = st['H']
+                m = p.fresh_int('m')
+                p.assume(And(H(m), ForAll([e], Implies(H(e), rk(m) <= rk(e)), patterns=[H(e)])))
+                H2 = fs('H')
+                # keys in the heap are pairwise distinct (one entry per extent): the popped extent is gone
+                p.assume(ForAll([e], H2(e) == And(e != m, H(e)), patterns=[H2(e), H(e)]))
+                st['H'] = H2
+                G['current'] = m
+                return TupleV([IntV(rk(m), 'Key'), tuple_of(m)])
+            functools = ObjV('module', {'partial': FuncV('functools.partial', lambda p, a, k: FuncV(
+                'partial', lambda p2, a2, k2, _f=a[0], _r=a[1:]: _f.fn(p2, list(_r) + list(a2), k2)))}, name='functools')
+            heapq = ObjV('module', {'heappush': FuncV('heappush', heappush), 'heappop': FuncV('heappop', heappop)}, name='heapq')
+
+            def neighbors(p, args, kw):
+                (x,) = args
+                p.oblige('pre@neighbors/extent', 'pre@call', isext(x.t))
+                p.oblige('pre@neighbors/Objects', 'pre@call', BoolVal(set(kw) == {'Objects'} and kw['Objects'] is Objects))
+                return IterV(lambda tt: TupleV([IntV(nb_E(x.t, tt), 'Objects'), IntV(C.Up(nb_E(x.t, tt)), 'Properties')]),
+                             nb_len(x.t), 'neighbors')
+            Objects = lib.bitset_class(C, 'Objects')
+            meths = lib.int_methods(C)
+            meths[('Objects', 'shortlex')] = FuncV('shortlex', lambda p, a, k: IntV(rk(a[0].t), 'Key'))
+
+            def J(st_, cur=None, upto=None):
+                """the invariant; inside the inner loop `cur` is the extent being processed and `upto` the number of its
+                neighbours handled so far"""
+                D, H, Pr, U, Lo = st_['D'], st_['H'], st_['Pr'], st_['U'], st_['Lo']
+                done = (lambda a, b: Pr(a)) if cur is None else (lambda a, b: Or(Pr(a), And(a == cur, nrank(cur, b) < upto)))
+                out = [
+                    ('J1', ForAll([e], Implies(D(e), isext(e)), patterns=[D(e)])),
+                    ('J2', D(e0)),
+                    ('J3', ForAll([e], And(D(e) == Or(Pr(e), H(e), (e == cur) if cur is not None else False), Not(And(Pr(e), H(e)))),
+                                  patterns=[D(e), Pr(e), H(e)])),
+                    ('J4', ForAll([e, f], Implies(And(cover(e, f), done(e, f)), D(f)), patterns=[cover(e, f)])),
+                    ('J5', ForAll([e, f], Implies(And(Pr(e), H(f)), rk(e) < rk(f)), patterns=[MultiPattern(Pr(e), H(f))])),
+                    ('J6', ForAll([e, f], U(e, f) == And(cover(e, f), done(e, f)), patterns=[U(e, f), cover(e, f)])),
+                    ('J7', ForAll([e, f], Lo(f, e) == And(cover(e, f), done(e, f)), patterns=[Lo(f, e), cover(e, f)])),
+                ]
+                if cur is not None:
+                    out.append(('J8', And(isext(cur), Not(Pr(cur)), Not(H(cur)),
+                                          ForAll([e], Implies(Pr(e), rk(e) < rk(cur)), patterns=[Pr(e)]),
+                                          ForAll([e], Implies(H(e), Or(rk(cur) < rk(e))), patterns=[H(e)]))))
+                return out
+
+            def outer_inv(en):
+                hv = en.val('heap')
+                if isinstance(hv, ListV):
+                    # before the loop: the concrete one-element heap list
+                    ok = len(hv.items) == 1 and isinstance(hv.items[0], TupleV) and len(hv.items[0].items) == 2 \
+                        and hv.items[0].items[1] is G.get('first_tuple')
+                    H0 = fs('H')
+                    path.assume(ForAll([e], H0(e) == (e == e0), patterns=[H0(e)]))
+                    st['H'] = H0
+                    return [('heap-init', And(BoolVal(ok), hv.items[0].items[0].t == rk(e0)) if ok else BoolVal(False))] + J(st)
+                return J(st)
+
+            def havoc_state(p, env_):
+                st.update({'D': fs('D'), 'H': fs('H'), 'Pr': fs('Pr'), 'U': fs('U', 2), 'Lo': fs('Lo', 2)})
+            outer = LoopSpec(outer_inv, ghost_havoc=havoc_state)
+            outer.modifies = ['heap']
+
+            def inner_inv(en, k):
+                return J(st, G['current'], k)
+            inner = LoopSpec(inner_inv, ghost_havoc=lambda p, env_: st.update({'D': fs('D'), 'H': fs('H'), 'U': fs('U', 2), 'Lo': fs('Lo', 2)}))
+
+            def on_yield(p, env_, val):
+                m = G['current']
+                ok = isinstance(val, TupleV) and getattr(val, 'key', None) is not None
+                p.oblige('yield/tuple-of-the-popped-extent', 'yield', (val.key == m) if ok else BoolVal(False))
+                # canonical order: strictly greater shortlex rank than everything yielded before (hence no repeats)
+                p.oblige('yield/strictly-increasing-shortlex', 'yield',
+                         ForAll([e], Implies(st['Pr'](e), rk(e) < rk(m)), patterns=[st['Pr'](e)]))
+                Pr2 = fs('Pr')
+                p.assume(ForAll([e], Pr2(e) == Or(e == m, st['Pr'](e)), patterns=[Pr2(e), st['Pr'](e)]))
+                st['Pr'] = Pr2
+
+            def list_append_hook(h, x):
+                if isinstance(h, Handle):
+                    handle_append(h, x)
+                    return True
+                return False
+            G['list_append_hook'] = list_append_hook
+
+            def finish(path, env_, outcome):
+                if outcome[0] != 'return':
+                    path.oblige('post/no-exception', 'post', BoolVal(False))
+                    return
+                D, Pr, U, Lo = st['D'], st['Pr'], st['U'], st['Lo']
+                # use lemma L-WORKLIST (lemmas/Worklist.lean: worklist_complete) with S = D
+                path.oblige('lemma.use/L-WORKLIST/closed-sets', 'lemma.use', ForAll([e], Implies(D(e), isext(e)), patterns=[D(e)]))
+                path.oblige('lemma.use/L-WORKLIST/least', 'lemma.use', D(e0))
+                path.oblige('lemma.use/L-WORKLIST/closed-under-covers', 'lemma.use',
+                            ForAll([e, f], Implies(And(D(e), cover(e, f)), D(f)), patterns=[cover(e, f)]))
+                path.assume(ForAll([e], Implies(isext(e), D(e)), patterns=[D(e)]))
+                path.oblige('post/yields-exactly-the-extents', 'post', ForAll([e], Pr(e) == isext(e), patterns=[Pr(e)]))
+                path.oblige('post/upper-lists-are-the-upper-covers', 'post',
+                            ForAll([e, f], U(e, f) == And(isext(e), cover(e, f)), patterns=[U(e, f), cover(e, f)]))
+                path.oblige('post/lower-lists-are-the-lower-covers', 'post',
+                            ForAll([e, f], Lo(f, e) == And(isext(e), cover(e, f)), patterns=[Lo(f, e), cover(e, f)]))
+            loops = {'int_methods': meths, 'globals': dict(lib.builtins(), functools=functools, heapq=heapq, neighbors=FuncV('neighbors', neighbors)),
+                     0: outer, 1: inner, 'on_yield': on_yield, 'dict_factory': dict_factory,
+                     'havoc_heap': lambda p, cur: heap_abs,
+                     # `concept`, `neighbor` are re-assigned before use in every iteration
+                     'havoc_concept': lambda p, cur: NONE, 'havoc_neighbor': lambda p, cur: NONE, 'havoc_upper': lambda p, cur: NONE}
+            return {'Objects': Objects, 'infimum': TupleV([])}, loops, finish
+        return axioms, harness
+    return make
+
+
+def IntVal0():
+    from z3 import IntVal
+    return IntVal(0)
+
+
+register(Unit('lindig.lattice', 'concepts/algorithms/lindig.py', 'lattice', _lattice_unit(),
+              assumptions=['requires infimum = () (what Context.lattice passes)',
+                           'contract of lindig.neighbors (unit lindig.neighbors + lemmas/Lindig.lean: cover_unique_gen)',
+                           'cover(e,f) implies f is an extent with greater shortlex rank (L-SLEX); bitsets shortlex() keys realise an injective rank',
+                           'heapq contract (one entry per extent: keys pairwise distinct, so tuple comparison never reaches the tuples)',
+                           'lemma L-WORKLIST proved in Lean (lemmas/Worklist.lean: worklist_complete)',
+                           'A-GEN: consumers that collect the generator see the lists after exhaustion; termination not proved'],
+              linkage=[('concepts.algorithms.lindig.lattice', None), ('concepts.algorithms.lattice', None)]))
